@@ -337,14 +337,24 @@ def load_all_schemes(
 
 __ALL_SCHEMES = []
 __LOADED_ALL_SCHEMES = False
+__EXTRA_FILENAMES: List[str] = []
 
 
 def all_schemes(extra_filenames: Optional[List[str]] = None) -> List[Type[MafScheme]]:
-    """Gets all the known schemes."""
+    """Gets all the known schemes.  Extra scheme files are registered
+    cumulatively: files given in earlier calls stay registered."""
     global __LOADED_ALL_SCHEMES
     global __ALL_SCHEMES
-    if not __LOADED_ALL_SCHEMES or extra_filenames:
-        __ALL_SCHEMES = load_all_schemes(extra_filenames=extra_filenames)
+    global __EXTRA_FILENAMES
+    new_filenames = []
+    for filename in extra_filenames or []:
+        if filename not in __EXTRA_FILENAMES and filename not in new_filenames:
+            new_filenames.append(filename)
+    if not __LOADED_ALL_SCHEMES or new_filenames:
+        # if loading fails the registry is left as it was
+        schemes = load_all_schemes(extra_filenames=__EXTRA_FILENAMES + new_filenames)
+        __EXTRA_FILENAMES = __EXTRA_FILENAMES + new_filenames
+        __ALL_SCHEMES = schemes
         __LOADED_ALL_SCHEMES = True
     return __ALL_SCHEMES
 
